@@ -2,10 +2,11 @@
 import random
 
 from harness import flow
-from harness.core import Result, run_async, run_sync
+from harness.core import set_case, Result, run_async, run_sync
 
 
 def check_spec(spec, res, runner_name):
+    set_case("C03", spec, runner_name)
     run = run_sync if runner_name == "sync" else run_async
     try:
         g, log = flow.build_gated(spec)
@@ -49,6 +50,11 @@ def run(tier, seed, functions):
 
 
 def replay(rep):
+    from harness.monitor import Monitors
+    mon = Monitors(only={rep["monitor"]}).arm() if rep.get("monitor") else None
     res = Result("C03", "", {})
     check_spec(rep["spec"], res, rep["runner"])
+    if mon:
+        mon.disarm()
+        return [f["what"] for f in mon.failures]
     return [f["what"] for f in res.failures]
